@@ -182,35 +182,10 @@ func (f *Frame) stGet(name string, sort Sort) T {
 	}
 	f.enc.stateSort[name] = sort
 	t := f.enc.declConst(name+"@0", sort)
-	f.refWf(name, t, f.enc.declConst("alloc@0", SInt))
 	return t
 }
 
-// refWf: references stored in a (havoced or initial) heap array predate its allocation bound.
-func (f *Frame) refWf(name string, arr T, bound T) {
-	if !strings.HasPrefix(name, "H_") {
-		return
-	}
-	key := "wf:" + arr.S
-	if f.enc.wfDone[key] {
-		return
-	}
-	ft := f.p.fieldTypeByArray(name)
-	if ft == nil {
-		return
-	}
-	var body string
-	switch ft.Underlying().(type) {
-	case *types.Slice:
-		body = fmt.Sprintf("(and (<= (sptr (select %[1]s r!w)) %[2]s) (<= 0 (slen (select %[1]s r!w))) (<= (slen (select %[1]s r!w)) (scap (select %[1]s r!w))) (<= 0 (soff (select %[1]s r!w))) (<= 0 (sptr (select %[1]s r!w))))", arr.S, bound.S)
-	case *types.Pointer, *types.Map:
-		body = fmt.Sprintf("(and (<= 0 (select %s r!w)) (<= (select %s r!w) %s))", arr.S, arr.S, bound.S)
-	default:
-		return
-	}
-	f.enc.wfDone[key] = true
-	f.enc.addFact(arr.S, fmt.Sprintf("(assert (forall ((r!w Int)) (! %s :pattern ((select %s r!w)))))", body, arr.S))
-}
+func (f *Frame) refWf(name string, arr T, bound T) { f.enc.refWf(name, arr, bound) }
 
 func stLookup(e *Enc, st State, name string) T {
 	if t, ok := st[name]; ok {
@@ -231,6 +206,7 @@ func (f *Frame) stSet(name string, t T) {
 	f.st[name] = t
 	if name != "alloc" {
 		f.enc.verAlloc[t.S] = f.alloc()
+		f.refWf(name, t, f.alloc())
 	}
 }
 
@@ -698,6 +674,7 @@ func (f *Frame) enterBlock(b *ssa.BasicBlock) bool {
 		if k != "alloc" {
 			if _, ok := f.enc.verAlloc[v.S]; !ok && !strings.HasSuffix(strings.Trim(v.S, "|"), "@0") {
 				f.enc.verAlloc[v.S] = f.alloc()
+				f.refWf(k, v, f.alloc())
 			}
 		}
 	}
@@ -797,7 +774,16 @@ func (f *Frame) loopHeader(li *loopInfo, preds []*ssa.BasicBlock) {
 		kind := li.mods[name]
 		sort, ok := f.enc.stateSort[name]
 		if !ok {
-			continue
+			if strings.HasPrefix(name, "IT_") {
+				continue
+			}
+			sort = f.readSortSafe(name)
+			if sort == "" {
+				f.enc.note("%s: state variable %s of unknown sort is not versioned across loop %d", f.fname, name, li.ordinal)
+				continue
+			}
+			f.enc.stateSort[name] = sort
+			f.enc.declSortOf(sort)
 		}
 		old := stLookup(f.enc, pre, name)
 		nv := f.enc.declConst(f.enc.fresh(name+"@L"), sort)
@@ -889,6 +875,13 @@ func (f *Frame) backEdge(from, h *ssa.BasicBlock, ep T) {
 		tr := f.translator(from, env, f.st, li)
 		c := tr.boolExpr(inv.Expr)
 		o := f.obligeNamed("inv", fmt.Sprintf("loop%d.%s@back.%s", li.ordinal, clauseName(inv, k), tag), token.NoPos, c, inv.Props)
+		f.addUses(o, li.spec.Uses, tr)
+		f.unassumeLast()
+	}
+	for k, pc := range li.spec.Preserves {
+		tr := f.translator(from, env, f.st, li)
+		c := tr.boolExpr(pc.Expr)
+		o := f.obligeNamed("inv", fmt.Sprintf("loop%d.preserves.%s@back.%s", li.ordinal, clauseName(pc, k), tag), token.NoPos, c, pc.Props)
 		f.addUses(o, li.spec.Uses, tr)
 		f.unassumeLast()
 	}
